@@ -10,7 +10,7 @@ COMMON_NOTE = ("Trusted: Coq 8.16.1 kernel and its VM (vm_compute; no native_com
 # id -> (text, note, technique, design_ref)
 CLAIMED = {
  "C20": ("Theorem for any number of clients and every history of commands by any of them (reads, plain / conditional writes, set_many, increments, deletes, pattern deletes, "
-         "expirations, flushes), time advances with server-side expiry, and subscription drops with the 10 s reconnect, all pending invalidations delivered after every event: at "
+         "expirations, flushes, set_lock / unlock), time advances with server-side expiry, and subscription drops with the 10 s reconnect, all pending invalidations delivered after every event: at "
          "every quiescent point no message or recently-updated mark is left over and every listening client's local values and 'absent' markers equal what the server holds, "
          "hence get / exists return the server's answer (invariant Q; the intermediate invariant P is carried through the invalidation loop message by message; per-command "
          "frame lemmas on the server model of C19); a rejected conditional write reaches no local copy; a lost connection empties the local copy and stops local serving. "
@@ -33,10 +33,10 @@ CLAIMED = {
          "body ended normally, and writes exactly the overlay / delete set obtained from its own write commands (6-part per-transaction invariant); lock invariant "
          "(4 parts) giving mutual exclusion of lock holders within their timeout; in LOCKED / SERIALIZABLE mode, with nobody inside a block beyond the timeout, a counter "
          "written by increments of blocks equals its initial value plus the increments of the committed blocks (4-part counter invariant on top of the other two); "
-         "serializable write phases never overlap. Real tasks (context-manager form, ONE shared decorated function, nested forms, direct commands) run under the "
+         "serializable write phases never overlap; every log entry is the complete list of one normally-ended block's own write effects, at most one and (for a block that reached its release phase unfailed) at least one per kind. Real tasks (context-manager form, ONE shared decorated function, nested forms, direct commands) run under the "
          "deterministic scheduler with every backend command gated; the command log with store snapshots is replayed on the model and judged by an oracle built from a "
          "sequential reference of one block. Thorough tier enumerates every schedule of selected 2-task programs per mode.",
-         "asyncio / contextvars / gather are the interpreter's (partial: theorems about the model + replayed logs); a block commits at most once (proved); that a normally-ended block does issue its commit commands is checked by the oracle on runs, not proved; one backend, integer values without TTL.",
+         "asyncio / contextvars / gather are the interpreter's (partial: theorems about the model + replayed logs); a block commits at most once and - once it has reached its release phase without failing - has issued its delete_many / set_many (both proved); progress under fair scheduling is not stated (schedules are arbitrary event lists); one backend, integer values without TTL; the block language has get / set / set-if / incr / delete / expire(k, 0) / sleep, explicit mid-body commit / rollback is tied as two blocks back to back.",
          "Coq proof (three stacked invariants over all schedules) + command-log replay from scheduled real tasks, exhaustive schedule enumeration in the thorough tier", "3/C05"),
  "C07": ("Theorems for every event sequence (any number of callers and keys; calls, task starts, body resumptions, done-callbacks and cancellations in any order, "
          "each loop callback its own event - finer than any real schedule): at most one body per key executes (8-part invariant by induction); a call made while a task "
@@ -57,10 +57,11 @@ CLAIMED = {
  "C16": ("Theorems for ANY fault set over the Gallina image of the block-exit protocol (try/finally of __aexit__, Transaction.commit/rollback over all backends, "
          "LockTransactionBackend commit/rollback/_unlock_updates): the task always leaves the transaction; every lock a backend holds gets its own release command on "
          "the rollback path of any number of backends, on a backend's commit path and through Transaction.commit over any number of backends (a failing commit rolls the "
-         "rest back), and a lock key survives only if a command of the exit phase itself failed. That the BODY keeps lock bookkeeping in step with the store and that a "
-         "body fault applies nothing are NOT proved: they are covered only by the correspondence, which enumerates EVERY single fault "
-         "position (and pairs) of 36 program/mode combinations against the real code with raising wrappers.",
-         "A fault = the command raises with no effect; single task; set iteration order of lock keys taken from the clean run; partial (see Properties/C16.v header).",
+         "rest back), and a lock key survives only if a command of the exit phase itself failed. The BODY keeps the lock bookkeeping in step with the store for any program "
+         "over data keys and any fault set (per-backend invariant BI), which gives the end-to-end theorem: after the block no lock-shaped key is left in any involved store "
+         "unless a command issued after the body failed. The correspondence enumerates EVERY single fault "
+         "position (and pairs) of 36 program/mode combinations against the real code with raising wrappers, in three spellings of the block.",
+         "A fault = the command raises an Exception with no effect (BaseException-class faults are outside: a second one during rollback skips the remaining backends); single task; set iteration order of lock keys taken from the clean run.",
          "Coq proof (release protocol for arbitrary fault sets) + exhaustive single/pair fault enumeration against the real code", "3/C16"),
  "C03": ("Theorems over the Gallina image of TransactionBackend (overlay, pending deletes, commit, rollback) on the TTL-map spec: no transactional command "
          "touches the underlying store; rollback returns it unchanged; commit makes every key read what the transaction's view showed, hence (with C04's "
@@ -79,10 +80,11 @@ CLAIMED = {
          "theorems `..._refuted` about the faithful model (witness evaluated in the kernel) and are replayed on the real code on every run, where they print "
          "KNOWN-FINDING. Proved for all states: a tagged write joins every named tag set for any TTL; delete_tags leaves no member of the tag's live set readable. "
          "Proved for every history WITHOUT TTLs (where F20 cannot arise), every registry and order of writes: after delete_tags(t) no key whose latest write carried t "
-         "is readable (invariant: every present key is a member of the set of each tag of its latest write). "
+         "is readable (invariant: every present key is a member of the set of each tag of its latest write); and for every history without TTLs whose tags are registered "
+         "for their keys (where F21 cannot arise): delete_tags(t) leaves untouched every key that has not carried t since its last removal (second invariant). "
          "The model (tags.py + Memory set commands + on-remove callback with lazy expiry made deterministic by probing) is compared with the real facade step by "
          "step; any oracle failure not containing a recorded situation (Run.C12.excl_f20 / excl_f21 on the shrunk history) is reported as a violation.",
-         "Completeness with TTLs holds only when no tagged write shortens a set below a live member (F20): that conditional statement is not proved; precision fails for unregistered tags (F21). Partial.",
+         "Completeness with TTLs holds only when no tagged write shortens a set below a live member (F20): that conditional statement is not proved; precision fails for unregistered tags (F21) and is proved for registered ones without TTLs. Partial.",
          "Coq proof (partial + refutation witnesses) + differential correspondence + known-finding predicates", "3/C12"),
  "C15": ("Theorems over the Gallina image of rate.py, rate_slide.py, Memory.slice_incr and circuit_breaker.py on the TTL-map spec, each as an invariant plus a "
          "one-call statement: rate_limit runs a call only if fewer than `limit` ran in the counter's current life, whose deadline is period after the first call / ttl "
